@@ -119,6 +119,8 @@ M = [
      '                substrings.append(original[i].strip(" .,:()[]-\'"))', '                substrings.append(original[i].strip(" .,:()[]-\'0123456789/"))'),
     ("C18-nbsp-not-normalised", ["C18"], "dateparser/date.py",
      '    date_string = RE_NBSP.sub(" ", date_string)\n    date_string = RE_SPACES.sub(" ", date_string)', '    date_string = re.sub(" +", " ", date_string)'),
+    ("C10-formats-ignore-strictness(reverse of 4f7ff90)", ["C10"], "dateparser/date.py",
+     "            try:\n                _check_strict_parsing(_get_missing_parts(date_format), settings)\n            except ValueError:\n                continue\n\n", ""),
     ("C19-rewrite-only-when-missing", ["C19"], "dateparser/timezone_parser.py",
      '    tmp_path = "%s.%d.tmp" % (cache_path, os.getpid())\n    try:', '    if os.path.exists(cache_path):\n        return\n    tmp_path = "%s.%d.tmp" % (cache_path, os.getpid())\n    try:'),
 ]
